@@ -15,6 +15,7 @@ import (
 	"sync"
 	"time"
 
+	"github.com/jmeaster30/vore/libvore"
 	"github.com/jmeaster30/vore/libvore/engine"
 )
 
@@ -89,7 +90,81 @@ func handleFiles(req *Req) *Resp {
 	return resp
 }
 
+// op "names": Arg = {files:[{path,bytes}], dirs:[path], order:[path]}: RunFiles with
+// processFilenames = true, in a fresh working directory, on relative paths
+func handleNames(req *Req) *Resp {
+	resp := &Resp{Out: Node{}}
+	v, err, pan, stack := compileSafe(req.Src)
+	if pan != "" {
+		resp.CPanic, resp.CStack = pan, stack
+		return resp
+	}
+	if err != nil {
+		resp.CErr = err.Error()
+		return resp
+	}
+	dir, e := os.MkdirTemp("", "verif.names.")
+	if e != nil {
+		resp.Crash = "harness: " + e.Error()
+		return resp
+	}
+	defer os.RemoveAll(dir)
+	old, _ := os.Getwd()
+	if e := os.Chdir(dir); e != nil {
+		resp.Crash = "harness: " + e.Error()
+		return resp
+	}
+	defer os.Chdir(old)
+	if arr, ok := req.Arg["dirs"].([]any); ok {
+		for _, x := range arr {
+			os.MkdirAll(string(anyBytes(x)), 0o755)
+		}
+	}
+	for _, f := range nlist(req.Arg, "files") {
+		if e := os.WriteFile(string(nbytes(f, "path")), nbytes(f, "bytes"), 0o644); e != nil {
+			resp.Crash = "harness: " + e.Error()
+			return resp
+		}
+	}
+	var names []string
+	if arr, ok := req.Arg["order"].([]any); ok {
+		for _, x := range arr {
+			names = append(names, string(anyBytes(x)))
+		}
+	}
+	// the engine reports failed renames on stderr: keep the worker's protocol stream clean
+	ms, p, st := runNamesSafe(v, names)
+	if p != "" {
+		resp.Out["panic"] = p + " @ " + st
+		return resp
+	}
+	var fsl []Node
+	filepath.Walk(".", func(p string, info os.FileInfo, err error) error {
+		if err != nil || info.IsDir() {
+			return nil
+		}
+		b, _ := os.ReadFile(p)
+		fsl = append(fsl, Node{"path": bytesJSON([]byte(filepath.ToSlash(p))), "bytes": bytesJSON(b)})
+		return nil
+	})
+	resp.Out["fs"] = fsl
+	resp.Out["ms"] = projMatches(ms)
+	return resp
+}
+
+func runNamesSafe(v *libvore.Vore, files []string) (ms engine.Matches, pan string, stack string) {
+	defer func() {
+		if r := recover(); r != nil {
+			pan = fmt.Sprint(r)
+			stack = shortStack()
+		}
+	}()
+	ms = v.RunFiles(files, engine.NEW, true)
+	return
+}
+
 func init() {
+	opHandlers["names"] = handleNames
 	opHandlers["files"] = handleFiles
 	subcommands["replayfs"] = replayFSMain
 }
@@ -103,6 +178,10 @@ type fsExp struct {
 func fsMap(l []Node) map[string]string {
 	out := map[string]string{}
 	for _, f := range l {
+		if _, ok := f["path"]; ok {
+			out[string(nbytes(f, "path"))] = string(nbytes(f, "bytes"))
+			continue
+		}
 		out[nstr(f, "d")+"/"+nstr(f, "name")] = string(nbytes(f, "bytes"))
 	}
 	return out
@@ -116,6 +195,7 @@ func replayFSMain(args []string) int {
 	reportPath := fs.String("report", "", "")
 	replayDir := fs.String("replaydir", "", "")
 	workers := fs.Int("workers", 16, "")
+	namesMode := fs.Bool("names", false, "cases of spec/NamesFS.tla: RunFiles with processFilenames")
 	fs.Parse(args)
 	start := time.Now()
 	cases, _, err := loadCases(*casesPath)
@@ -173,7 +253,12 @@ func replayFSMain(args []string) int {
 			defer wg.Done()
 			defer func() { <-sem }()
 			src := renderProgram(c)
-			resp := pool.Do(&Req{Op: "files", Src: src, Arg: Node{"files": c["files"], "order": c["order"], "mode": c["mode"]}})
+			var resp *Resp
+			if *namesMode {
+				resp = pool.Do(&Req{Op: "names", Src: src, Arg: Node{"files": c["files"], "order": c["order"], "dirs": c["dirs"]}})
+			} else {
+				resp = pool.Do(&Req{Op: "files", Src: src, Arg: Node{"files": c["files"], "order": c["order"], "mode": c["mode"]}})
+			}
 			mu.Lock()
 			rep.Evaluations++
 			rep.Programs++
@@ -232,6 +317,10 @@ func replayFSMain(args []string) int {
 				}
 				if nbool(w, "hasr") && string(nbytes(g, "repl")) != string(nbytes(w, "repl")) {
 					add(mk("repl", fmt.Sprintf("match %d: replacement differs", i), resp.Out))
+					return
+				}
+				if *namesMode && nstr(g, "file") != string(nbytes(w, "file")) {
+					add(mk("file", fmt.Sprintf("match %d: reported for %q, expected %q", i, nstr(g, "file"), string(nbytes(w, "file"))), resp.Out))
 					return
 				}
 			}
